@@ -429,3 +429,35 @@ def sweep(job):
             acc.samples.append(dict(jid, mark=cs / 100.0, points=cur))
         cs += 1 if (stride == 1 or cs < dense_lo) else stride
     return acc.pack()
+
+
+# ------------------------------------------------------------------------------------------------
+# call-order pass (vlib/orderpass): a few jobs of every system at a mark in the middle of their range
+
+def order_call(sysname, idx, cs, formidx):
+    S = SYSTEMS[sysname]
+    job = _order_jobs()[sysname][idx]
+    forms = S['forms'](job, cs)
+    return S['call'](job, forms[formidx % len(forms)][1])
+
+
+def _order_jobs():
+    if 'order_jobs' not in _G:
+        _G['order_jobs'] = {k: S['jobs']('quick') for k, S in SYSTEMS.items()}
+    return _G['order_jobs']
+
+
+def order_calls(per_system=6):
+    """[(path, args)] for orderpass: per system jobs spread over its table (first, last and evenly between), two marks and two input forms"""
+    calls = []
+    for sysname in ('ty', 'qk', 'sh', 'bg', 'hu'):
+        jobs = _order_jobs()[sysname]
+        n = len(jobs)
+        idxs = sorted(set([0, n - 1] + [int(i * (n - 1) / (per_system - 1)) for i in range(per_system)]))
+        for k, i in enumerate(idxs):
+            j = jobs[i]
+            mid = (j['lo'] + j['hi']) // 2
+            calls.append(('checks.scoring_common:order_call', (sysname, i, mid, k)))
+            if k % 3 == 0:
+                calls.append(('checks.scoring_common:order_call', (sysname, i, mid + 37, k + 1)))
+    return calls
